@@ -57,6 +57,8 @@ def run(obs, rec):
     cur_docs = []
     stops = []              # (uid, exit_status, reason, num_events)
     intr_points = 0
+    point_of = {}           # (run, stream, seq_num) -> identity of the `save` message (the data point) that got it
+    cur_mid = None
 
     def find(uid):
         for r in open_runs:
@@ -157,6 +159,14 @@ def run(obs, rec):
                 if name not in r.descs:
                     v("grammar", "event of stream %r in run %s before its descriptor" % (name, u))
                 event(r, name, n, "number")
+                # a seq_num may be issued again only to the SAME data point, re-taken (the identical `save`
+                # message processed again by a replay); a different point must get a fresh number
+                if cur_msg is not None and cur_msg["cmd"] == "save" and cur_mid is not None:
+                    key = (u, name, n)
+                    if key in point_of and point_of[key] != cur_mid:
+                        v("retake", "run %s stream %r: seq_num %s, first given to data point (save message) #%s, is re-used by the different point #%s" % (
+                            u, name, n, point_of[key], cur_mid))
+                    point_of.setdefault(key, cur_mid)
             elif kind == "stop":
                 if expect:
                     v("intr", "expected %s, got the stop of run %s" % (expect[0], u))
@@ -199,6 +209,7 @@ def run(obs, rec):
                 expect = intr_expect()
             if cmd in ("open_run", "close_run", "create", "read", "save", "drop"):
                 cur_msg = m
+                cur_mid = o[1]
                 cur_docs = []
             else:
                 cur_msg = None
